@@ -12,6 +12,7 @@
  * parse_netloc's std::stod calls strtod = stub, EXACT for texts that are 1..5 decimal digits (value accumulated in integers,
  * converted once); any other text: contract (arbitrary value, end pointer inside the text, nothing consumed => 0). */
 #include "harness.h"
+#include "stub_printf.h" /* exact decimal/hex printf family for the generated-C modes: a render_netloc that formats the port with snprintf is judged by the same rule */
 int64_t w_render_netloc(uint8_t* host, uint64_t n, uint32_t port, uint8_t* out, uint64_t cap);
 int64_t w_parse_netloc(uint8_t* text, uint64_t n, uint32_t default_port, uint8_t* host_out, uint64_t cap, uint32_t* port_out);
 
